@@ -152,6 +152,8 @@ pub enum LogKind {
     },
     /// Callable about to finish with the outcome.
     Exit { key: String, inv: usize, outcome: Outcome },
+    /// The harness released the gate with this label.
+    Released(String),
     /// After hook's view of why the scenario finished.
     AfterReason { key: String, reason: String },
     /// Tracing log emitted (id).
